@@ -5,7 +5,7 @@
    per worker and Start spawns one goroutine per state), so two bodies running
    at once hold different handles by construction; handle identity in the real
    code is observed by the harness (live set of *T pointers). *)
-From F1 Require Import Base.Prelude Model.Pool Proofs.PoolBase Proofs.PoolFinal Model.ContPool Proofs.ContPoolProofs.
+From F1 Require Import Base.Prelude Model.Pool Proofs.PoolBase Proofs.PoolFinal Proofs.PoolNoLost Model.ContPool Proofs.ContPoolProofs.
 
 (* At no instant are more than `concurrency` bodies executing. *)
 Theorem C04_bound : forall n maxit ticks sched,
@@ -29,6 +29,26 @@ Proof.
   split; [|exact Hl]. unfold c_in_flight. rewrite <- Hl. apply zcount_le_length.
 Qed.
 Print Assumptions C04_users_bound.
+
+(* Conversely, all workers are usable: no lost wake-up. In every reachable state in which
+   requests are pending, the pool is running and the ticking goroutine is not between its
+   swap and its broadcast (lock held), NO worker is parked on the condition variable - every
+   idle worker is at, or on its way to, take(). Together with C05_pool_progress (an enabled
+   step always exists) an idle worker therefore does claim a pending request. *)
+Theorem C04_no_lost_wakeup : forall n maxit ticks sched,
+  let s := pexec (pinit n maxit ticks) sched in
+  0 < counter s -> stopflag s = false -> (forall d rest, tick s <> T4 d rest) ->
+  forall i, nth_error (workers s) i <> Some WWait.
+Proof. exact no_lost_wakeup. Qed.
+Print Assumptions C04_no_lost_wakeup.
+
+(* Non-vacuity: two workers go to sleep, a tick of 2 arrives; after its broadcast requests are
+   pending, the pool runs, the ticker is past T4 - and indeed both workers have left the wait. *)
+Example C04_no_lost_wakeup_example :
+  let s := pexec (pinit 2 0 [2]) (flat_map (fun i => repeat (PWorker i) 5) [0; 1]%nat ++ repeat PTick 6) in
+  counter s = 2 /\ stopflag s = false /\ workers s = [WRelock; WRelock] /\
+  workers (pexec (pinit 2 0 [2]) (flat_map (fun i => repeat (PWorker i) 5) [0; 1]%nat)) = [WWait; WWait].
+Proof. vm_compute. repeat split; reflexivity. Qed.
 
 (* Conversely all workers can be executing at the same time when at least
    `concurrency` requests are pending: witness schedules for pools of 1 to 4
